@@ -193,6 +193,104 @@ static void* destroy_waiter(void* arg) {
     return nullptr;
 }
 
+
+// ---- scripted rounds: a head waiter with a large demand is interrupted (or times out) while smaller waiters are
+// queued behind it and the count already covers them. In in-order mode they may only be resumed by the leaving
+// head; nobody signals again, so a missing hand-over leaves them blocked with count() >= demand (supervisor).
+struct ScriptRound {
+    semaphore* s = nullptr;
+    std::atomic<int> small_done{0}, head_done{0}, queued{0};
+    std::atomic<thread*> head{nullptr};
+};
+static ScriptRound* g_sr = nullptr;
+static std::atomic<int> g_script_blocked_small{0};
+static vh::NamedCounter c_script("script_rounds"), c_script_head_intr("script_head_interrupted"), c_script_head_to("script_head_timed_out");
+static void* script_head(void* arg) {
+    auto sr = (ScriptRound*)arg;
+    sr->head.store(CURRENT, std::memory_order_release);
+    sr->queued.fetch_add(1);
+    uint64_t tmo = (uint64_t)(uintptr_t)sr->s % 2 ? -1ULL : 3000;     // some heads leave by timeout instead
+    int ret = sr->s->wait_interruptible(5, Timeout(tmo));
+    if (ret == 0) vh::violation("script/head-got-tokens-that-do-not-exist", "wait(5) succeeded with only 2 tokens signalled", "null");
+    else if (errno == ETIMEDOUT) c_script_head_to.add(); else c_script_head_intr.add();
+    sr->head_done.store(1, std::memory_order_release);
+    return nullptr;
+}
+static void* script_small(void* arg) {
+    auto sr = (ScriptRound*)arg;
+    sr->queued.fetch_add(1);
+    g_script_blocked_small.fetch_add(1, vh::MO);
+    int ret = sr->s->wait(1);
+    g_script_blocked_small.fetch_sub(1, vh::MO);
+    if (ret != 0) vh::violation("wait/untimed-failed", "wait(1) failed in the scripted round", "null");
+    sr->small_done.fetch_add(1, std::memory_order_acq_rel);
+    return nullptr;
+}
+static int run_script_mode(vh::Rng& r, int nv, uint64_t rounds) {
+    vh::start_supervisor([](std::string& k, std::string& w, std::string& wit) {
+        auto sr = g_sr;
+        if (sr && sr->head_done.load() && sr->small_done.load() < 2 && sr->s->count() >= 1) {
+            k = "lost-wakeup:inorder";
+            w = "the head waiter left (interrupt/timeout) and count() covers the waiters queued behind it, but they stay blocked";
+            wit = vh::JObj().kv("count", sr->s->count()).kv("small_waiters_done", sr->small_done.load()).str();
+            return true;
+        }
+        k = "sem-script"; w = "scripted round made no progress";
+        return false;
+    });
+    vh::VCpus vc;
+    std::atomic<int> phase{0};          // round hand-shake between vCPU 0 (director) and the others
+    std::atomic<bool> stop{false};
+    std::vector<std::atomic<int>> place(3);
+    vc.run(nv, nullptr, [&](int v) {
+        if (v != 0) {                   // helpers: create the threads the director placed here
+            int seen = 0;
+            while (!stop.load(std::memory_order_acquire)) {
+                int ph = phase.load(std::memory_order_acquire);
+                if (ph != seen && ph > 0) {
+                    seen = ph;
+                    auto sr = g_sr;
+                    if (place[0].load() == v) thread_create(script_head, sr, 128 * 1024);
+                    thread_yield();
+                    if (place[1].load() == v) thread_create(script_small, sr, 128 * 1024);
+                    if (place[2].load() == v) thread_create(script_small, sr, 128 * 1024);
+                }
+                thread_usleep(50);
+            }
+            return;
+        }
+        for (uint64_t i = 0; i < rounds; ++i) {
+            auto sr = new ScriptRound;
+            sr->s = new semaphore(0, true);
+            g_sr = sr;
+            for (int k = 0; k < 3; ++k) place[k].store(r.below(nv));
+            phase.fetch_add(1, std::memory_order_acq_rel);
+            if (place[0].load() == 0) thread_create(script_head, sr, 128 * 1024);
+            // the head must be first in the queue
+            while (sr->queued.load() < 1) thread_usleep(20);
+            thread_usleep(100);
+            if (place[1].load() == 0) thread_create(script_small, sr, 128 * 1024);
+            if (place[2].load() == 0) thread_create(script_small, sr, 128 * 1024);
+            while (sr->queued.load() < 3) thread_usleep(20);
+            thread_usleep(r.range(50, 400));            // let them block
+            sr->s->signal(2);                            // covers both small waiters, not the head
+            thread_usleep(r.range(0, 200));
+            if (!sr->head_done.load()) thread_interrupt(sr->head.load(std::memory_order_acquire), EINTR);
+            while (!sr->head_done.load() || sr->small_done.load() < 2) thread_usleep(50);   // supervisor watches this
+            if (sr->s->count() != 0)
+                vh::violation("conservation/mismatch:inorder", "tokens left after both small waiters were served", vh::JObj().kv("count", sr->s->count()).str());
+            c_script.add();
+            vh::event(3);
+            vh::progress();
+            g_sr = nullptr;
+            thread_usleep(200);                          // threads of this round exit
+            delete sr->s; delete sr;
+        }
+        stop.store(true, std::memory_order_release);
+    });
+    return 0;
+}
+
 int main(int argc, char** argv) {
     vh::init(argc, argv);
     vh::Rng r(vh::args().xseed());
@@ -206,7 +304,17 @@ int main(int argc, char** argv) {
     using namespace photon::verif;
     vh::arm_stalls(r, {P_SEM_WAIT_AFTER_DEFER, P_SEM_SIGNAL_AFTER_RESUME, P_INTERRUPT_BEFORE_LOCK, P_RESUME_BEFORE_LOCK,
                        P_PRELOCKED_INTERRUPT, P_WAITQ_RESUME});
-    vh::config("mode", destroy_mode ? "destroy" : "ledger");
+    bool script_mode = vh::args().has("mode") ? vh::args().gets("mode", "") == "script" : (vh::args().exec % 4 == 1);
+    vh::config("mode", destroy_mode ? "destroy" : script_mode ? "script" : "ledger");
+    if (script_mode && !destroy_mode) {
+        vh::config("vcpus", nv);
+        run_script_mode(r, nv, std::max<uint64_t>(20, g_ops / 10));
+        vh::set_sig("script|v" + std::to_string(nv) + "|" + vh::cov_signature({photon::verif::C_SEM_INTERRUPTED_RESUME, photon::verif::C_CROSS_VCPU_WAKE}) +
+                        "to:" + std::to_string(vh::log2bucket(c_script_head_to.get())), c_script.get() > 0 && c_script_head_intr.get() > 0);
+        vh::sample(vh::JObj().kv("mode", "script").kv("vcpus", nv).kv("rounds", c_script.get()).kv("head_interrupted", c_script_head_intr.get())
+                       .kv("head_timed_out", c_script_head_to.get()).str());
+        return vh::finish();
+    }
     vh::config("vcpus", nv); vh::config("ops", g_ops);
 
     if (destroy_mode) {
